@@ -9,11 +9,11 @@ RL = "internal/ratelimiter"
 MAIN = "cmd/helios"
 
 ENGINES = [
-    dict(name="S", path="engine/shim/vrt", serves_properties=["C02", "C04", "C05", "C06", "C07", "C08", "C09", "C11", "C12", "C13", "C19"],
+    dict(name="S", path="engine/shim/vrt", serves_properties=["C02", "C04", "C05", "C06", "C07", "C08", "C09", "C11", "C12", "C13", "C19", "C20"],
          kind_free_text="controlled cooperative scheduler + stateless replay DFS with preemption bounding over the real Helios code (sync/atomic/time/go/select rewritten onto shims by vgen)"),
-    dict(name="W", path="engine/shim/wire", serves_properties=["C01", "C10", "C14", "C15", "C16", "C17", "C18"],
+    dict(name="W", path="engine/shim/wire", serves_properties=["C01", "C10", "C14", "C15", "C16", "C17", "C18", "C20"],
          kind_free_text="exhaustive enumeration of finite input / configuration / fault-sequence products over real connections: raw-socket HTTP/1.1 client, scripted backends on loopback listeners, the real handler chain behind the real http.Server; differential and reference oracles on the exchanged bytes"),
-    dict(name="H", path="engine/shim/vh/hrun.go", serves_properties=["C02", "C04", "C05", "C06", "C07", "C08", "C09", "C11", "C12", "C13", "C19"],
+    dict(name="H", path="engine/shim/vh/hrun.go", serves_properties=["C02", "C04", "C05", "C06", "C07", "C08", "C09", "C11", "C12", "C13", "C19", "C20"],
          kind_free_text="explicit-state breadth-first search over event histories of the real objects under a virtual clock, reflective state fingerprint for deduplication, reference-model / monitor oracle on every transition"),
 ]
 
@@ -156,10 +156,10 @@ CHECKS = {
         level="model_checking",
         engine="S+H+W",
         technique="explicit-state BFS over pool-operation histories with tracked connections and invariants on every state + exhaustive preemption-bounded schedule exploration of concurrent pool actors + exhaustive enumeration of message scripts through upgrade tunnels over real connections",
-        text="TODO",
-        note="TODO",
-        claimed=False,
+        text="Tunnel: an Upgrade session is opened through the real handler chain and reverse proxy for every plugin chain of length <= 2 (thorough <= 3) over the six built-ins; after the 101 both ends follow every lock-step byte script of length <= 1-2 (thorough <= 3) over {client sends k, server sends k : k in 0, 1, 125, 126, 65536, 100000} ended by either side: each end must receive exactly the other's bytes in order and see EOF after the peer closed. Pool: for 1-2 backends and max_idle 0..3 every history up to the depth over {put a new connection, get, put back, close, clock +4s/+11s against a 10s idle timeout, cleanup, shutdown} on tracked fake connections is replayed on the real WebSocketPool with invariants on every state (a connection has at most one holder, Get returns nothing the pool closed or idle beyond the timeout, idle <= max_idle and equals the open connections owned, refused Put and Shutdown close); 2-3 concurrent pool actors are explored under all interleavings up to the preemption bound incl. 'accepted connections are closed or retrievable after the final Shutdown'.",
+        note="After the 101 the tunnel is checked on raw bytes, which is stronger than WebSocket frames; the pool is exercised through its own API (nothing in Helios calls Get/Put on the proxy path).",
         jobs=[
+            dict(name="c20tunnel", part="Tunnel", pkg=MAIN, run="TestVerifC20Tunnel", mode="plain", gomaxprocs=4, shards=dict(quick=14, thorough=16), timeout=dict(quick=600, thorough=3000)),
             dict(name="c20poolh", part="PoolH", pkg=LB, run="TestVerifC20PoolH", mode="instr", shards=dict(quick=8, thorough=8), timeout=dict(quick=600, thorough=3000)),
             dict(name="c20pools", part="PoolS", pkg=LB, run="TestVerifC20PoolS", mode="instr", shards=dict(quick=12, thorough=16), timeout=dict(quick=600, thorough=3000)),
         ],
